@@ -1,19 +1,165 @@
-(** C10 — Reduced labelling.  STATUS: [_partial].  Proved: the extent under which an object
-    o is filed is {o}'' and the extent under which a property p is filed is {p}'.  The
-    per-concept tuples are decided by the correspondence in this revision. *)
-From Coq Require Import ZArith List Bool.
-From Concepts Require Import Base.Res Base.PyInt Base.BitSet Spec.FCA Spec.Context
+(** C10 — Reduced labelling.
+
+    "each object o appears in the objects label of exactly one concept, the object concept
+    (o'', o'), and each property p in the properties label of exactly one concept, the attribute
+    concept (p', p''), in context order within a label.  The extent of any concept is the union
+    of the object labels in its downset and its intent the union of the property labels in its
+    upset, and concept.atoms lists exactly the lattice atoms below or equal to it."
+
+    END-TO-END: [L] is the value returned by the model of [Context.lattice] ([build_lattice]
+    including Lattice._annotate; satisfiable by [C03_terminates]).  [c_objects x] /
+    [c_properties x] are the positions (in the context) of the labels of member [x]; context
+    order is increasing position.  [c_atoms x] / [c_upper x0] are positions of members. *)
+From Coq Require Import ZArith List Bool Sorted.
+From Concepts Require Import Base.Res Base.PyInt Base.BitSet Spec.FCA Spec.Context Spec.LatticeSpec
   Model.Matrices Model.ContextApi Model.Members Model.Lattice Model.LatticeApi
-  Proofs.Matrices Proofs.ContextApi Proofs.Closure Proofs.LatticeBasics Proofs.LatticeFirst.
+  Proofs.Matrices Proofs.ContextApi Proofs.Closure Proofs.LatticeBasics Proofs.LatticeFirst
+  Proofs.BuildLattice Proofs.LatticeLabels Proofs.Assemble.
 Import ListNotations.
 Open Scope Z_scope.
 
-Theorem C10_object_concept_partial : forall fuel c o,
+(** * each object in exactly one label: that of the object concept (o'', o') *)
+
+Theorem C10_object_label_unique : forall fuel dfuel c L o,
+  wf_ctx c -> (Nat.max (nG c) (nM c) <= dfuel)%nat -> build_lattice fuel dfuel (relation_new c) = Ok L ->
+  (o < nG c)%nat ->
+  exists k, (exists x, concept_at L k x /\ In o (c_objects x) /\
+               c_extent x = clO c (bit o) /\ c_intent x = upO c (bit o)) /\
+    forall k' x', concept_at L k' x' -> In o (c_objects x') -> k' = k.
+Proof.
+  intros fuel dfuel c L o Hwf Hd HB.
+  exact (object_label_unique c L (build_lattice_ok fuel dfuel c L Hwf Hd HB) o).
+Qed.
+
+(** * each property in exactly one label: that of the attribute concept (p', p'') *)
+
+Theorem C10_property_label_unique : forall fuel dfuel c L p,
+  wf_ctx c -> (Nat.max (nG c) (nM c) <= dfuel)%nat -> build_lattice fuel dfuel (relation_new c) = Ok L ->
+  (p < nM c)%nat ->
+  exists k, (exists x, concept_at L k x /\ In p (c_properties x) /\
+               c_extent x = upM c (bit p) /\ c_intent x = clM c (bit p)) /\
+    forall k' x', concept_at L k' x' -> In p (c_properties x') -> k' = k.
+Proof.
+  intros fuel dfuel c L p Hwf Hd HB.
+  exact (property_label_unique c L (build_lattice_ok fuel dfuel c L Hwf Hd HB) p).
+Qed.
+
+(** the content of a label *)
+Theorem C10_objects_label : forall fuel dfuel c L i x o,
+  wf_ctx c -> (Nat.max (nG c) (nM c) <= dfuel)%nat -> build_lattice fuel dfuel (relation_new c) = Ok L ->
+  concept_at L i x ->
+  (In o (c_objects x) <-> (o < nG c)%nat /\ c_extent x = clO c (bit o)).
+Proof.
+  intros fuel dfuel c L i x o Hwf Hd HB.
+  exact (ok_objects c L (build_lattice_ok fuel dfuel c L Hwf Hd HB) i x o).
+Qed.
+
+Theorem C10_properties_label : forall fuel dfuel c L i x p,
+  wf_ctx c -> (Nat.max (nG c) (nM c) <= dfuel)%nat -> build_lattice fuel dfuel (relation_new c) = Ok L ->
+  concept_at L i x ->
+  (In p (c_properties x) <-> (p < nM c)%nat /\ c_extent x = upM c (bit p)).
+Proof.
+  intros fuel dfuel c L i x p Hwf Hd HB.
+  exact (ok_properties c L (build_lattice_ok fuel dfuel c L Hwf Hd HB) i x p).
+Qed.
+
+(** * context order within a label (strictly increasing positions: in particular no repeats) *)
+
+Theorem C10_objects_label_sorted : forall fuel dfuel c L i x,
+  wf_ctx c -> (Nat.max (nG c) (nM c) <= dfuel)%nat -> build_lattice fuel dfuel (relation_new c) = Ok L ->
+  concept_at L i x -> StronglySorted lt (c_objects x).
+Proof.
+  intros fuel dfuel c L i x Hwf Hd HB.
+  exact (ok_objects_sorted c L (build_lattice_ok fuel dfuel c L Hwf Hd HB) i x).
+Qed.
+
+Theorem C10_properties_label_sorted : forall fuel dfuel c L i x,
+  wf_ctx c -> (Nat.max (nG c) (nM c) <= dfuel)%nat -> build_lattice fuel dfuel (relation_new c) = Ok L ->
+  concept_at L i x -> StronglySorted lt (c_properties x).
+Proof.
+  intros fuel dfuel c L i x Hwf Hd HB.
+  exact (ok_properties_sorted c L (build_lattice_ok fuel dfuel c L Hwf Hd HB) i x).
+Qed.
+
+Theorem C10_labels_valid : forall fuel dfuel c L i x,
+  wf_ctx c -> (Nat.max (nG c) (nM c) <= dfuel)%nat -> build_lattice fuel dfuel (relation_new c) = Ok L ->
+  concept_at L i x ->
+  Forall (fun o => (o < nG c)%nat) (c_objects x) /\ NoDup (c_objects x) /\
+  Forall (fun p => (p < nM c)%nat) (c_properties x) /\ NoDup (c_properties x).
+Proof.
+  intros fuel dfuel c L i x Hwf Hd HB.
+  exact (labels_valid c L (build_lattice_ok fuel dfuel c L Hwf Hd HB) i x).
+Qed.
+
+(** * extent = union of the object labels in the downset; intent = union of the property labels
+      in the upset *)
+
+Theorem C10_extent_is_union_of_labels_below : forall fuel dfuel c L i x,
+  wf_ctx c -> (Nat.max (nG c) (nM c) <= dfuel)%nat -> build_lattice fuel dfuel (relation_new c) = Ok L ->
+  concept_at L i x -> forall o,
+  (mem (c_extent x) o = true <->
+   exists k y, concept_at L k y /\ subset (c_extent y) (c_extent x) /\ In o (c_objects y)).
+Proof.
+  intros fuel dfuel c L i x Hwf Hd HB.
+  exact (extent_is_union_of_labels_below c L (build_lattice_ok fuel dfuel c L Hwf Hd HB) i x).
+Qed.
+
+Theorem C10_intent_is_union_of_labels_above : forall fuel dfuel c L i x,
+  wf_ctx c -> (Nat.max (nG c) (nM c) <= dfuel)%nat -> build_lattice fuel dfuel (relation_new c) = Ok L ->
+  concept_at L i x -> forall p,
+  (mem (c_intent x) p = true <->
+   exists k y, concept_at L k y /\ subset (c_extent x) (c_extent y) /\ In p (c_properties y)).
+Proof.
+  intros fuel dfuel c L i x Hwf Hd HB.
+  exact (intent_is_union_of_labels_above c L (build_lattice_ok fuel dfuel c L Hwf Hd HB) i x).
+Qed.
+
+(** * concept.atoms: exactly the lattice atoms (upper neighbours of the infimum [x0]) that are
+      below or equal to the concept *)
+
+Theorem C10_atoms : forall fuel dfuel c L x0 i x a,
+  wf_ctx c -> (Nat.max (nG c) (nM c) <= dfuel)%nat -> build_lattice fuel dfuel (relation_new c) = Ok L ->
+  concept_at L 0 x0 -> concept_at L i x ->
+  (In a (c_atoms x) <->
+   In a (c_upper x0) /\ exists y, concept_at L a y /\ subset (c_extent y) (c_extent x)).
+Proof.
+  intros fuel dfuel c L x0 i x a Hwf Hd HB.
+  exact (atoms_spec c L (build_lattice_ok fuel dfuel c L Hwf Hd HB) x0 i x a).
+Qed.
+
+(** ... the atoms being the concepts covering the infimum *)
+Theorem C10_atoms_cover_infimum : forall fuel dfuel c L i x a,
+  wf_ctx c -> (Nat.max (nG c) (nM c) <= dfuel)%nat -> build_lattice fuel dfuel (relation_new c) = Ok L ->
+  concept_at L i x ->
+  (In a (c_atoms x) <-> exists y, concept_at L a y /\ covers c (clO c 0) (c_extent y)
+                                  /\ subset (c_extent y) (c_extent x)).
+Proof.
+  intros fuel dfuel c L i x a Hwf Hd HB.
+  exact (ok_atoms c L (build_lattice_ok fuel dfuel c L Hwf Hd HB) i x a).
+Qed.
+
+(** * the extents under which _annotate files a label *)
+
+Theorem C10_object_concept : forall fuel c o,
   wf_ctx c -> (o < nG c)%nat -> (Nat.max (nG c) (nM c) <= fuel)%nat ->
   (do B <- intension_raw fuel (relation_new c) [o] ;; properties_prime fuel (relation_new c) B)
   = Ok (clO c (bit o)).
 Proof. exact object_label_extent. Qed.
-Theorem C10_attribute_concept_partial : forall fuel c p,
+Theorem C10_attribute_concept : forall fuel c p,
   (p < nM c)%nat -> (Nat.max (nG c) (nM c) <= fuel)%nat ->
   extension_raw fuel (relation_new c) [p] = Ok (upM c (bit p)).
 Proof. exact property_label_extent. Qed.
+
+(** * witness: rows {0,1}, {1,2}, {2,3}, {0,1,2}: (objects label, properties label, atoms) of the
+      eight members *)
+Example C10_witness :
+  let c := mkCtx 4 4 [3; 6; 12; 7] in
+  wf_ctx c /\ (Nat.max (nG c) (nM c) <= 4)%nat /\
+  exists L, build_lattice 20 4 (relation_new c) = Ok L /\
+    map (fun x => (c_objects x, c_properties x, c_atoms x)) (l_concepts L)
+    = [([], [], []); ([2], [3], [1]); ([3], [], [2]); ([0], [0], [2]); ([1], [], [2]);
+       ([], [1], [2]); ([], [2], [1; 2]); ([], [], [1; 2])]%nat.
+Proof.
+  cbv zeta. split; [apply wf_ctxb_sound; vm_compute; reflexivity|]. split; [apply le_by_leb; vm_compute; reflexivity|].
+  apply witness_intro. vm_compute. reflexivity.
+Qed.
